@@ -39,12 +39,12 @@ const (
 
 type sysClock struct{}
 
-func (sysClock) Epoch() uint64                                     { return 0 }
-func (sysClock) Now() time.Time                                    { return time.Now().UTC() }
-func (sysClock) Drift(d time.Duration) time.Duration               { return 0 }
-func (sysClock) Step(offset time.Duration)                         {}
-func (sysClock) Adjust(offset, duration time.Duration, f float64)  {}
-func (sysClock) Sleep(d time.Duration)                             { time.Sleep(d) }
+func (sysClock) Epoch() uint64                                    { return 0 }
+func (sysClock) Now() time.Time                                   { return time.Now().UTC() }
+func (sysClock) Drift(d time.Duration) time.Duration              { return 0 }
+func (sysClock) Step(offset time.Duration)                        {}
+func (sysClock) Adjust(offset, duration time.Duration, f float64) {}
+func (sysClock) Sleep(d time.Duration)                            { time.Sleep(d) }
 
 type obs struct {
 	rcv  int
@@ -306,6 +306,124 @@ func (d *drv) payloadOf(s step, firstReply [][]byte, r *lib.Rng) []byte {
 	return s.data
 }
 
+// burstItems decodes the items of a burst step.
+func (d *drv) burstItems(data []byte, r *lib.Rng) [][]byte {
+	var items [][]byte
+	for len(data) >= 2 {
+		n := int(binary.BigEndian.Uint16(data))
+		data = data[2:]
+		if n == 0xffff {
+			if len(data) < 2 {
+				break
+			}
+			items = append(items, d.ntsRequest(data[1], int64(data[0]), r))
+			data = data[2:]
+			continue
+		}
+		if n > len(data) {
+			n = len(data)
+		}
+		items = append(items, data[:n])
+		data = data[n:]
+	}
+	return items
+}
+
+// exchangeBurst is exchange with several datagrams before the sentinel.
+func (d *drv) exchangeBurst(sender int, dst *net.UDPAddr, pkts [][]byte, sentinelPkt []byte) (reps, sreps []obs) {
+	c := d.socks[sender]
+	for _, p := range pkts[:len(pkts)-1] {
+		if _, err := c.WriteToUDP(p, dst); err != nil {
+			note(fmt.Sprintf("write failed: %v (len %d)", err, len(p)))
+		}
+	}
+	return d.exchange(sender, dst, pkts[len(pkts)-1], sentinelPkt, d.isSentinelReply)
+}
+
+// runParallel writes the items of several sockets interleaved, so that several
+// listener goroutines work at the same time, then one sentinel per socket, and
+// collects per socket.  Returns one observed burst per socket.
+func (d *drv) runParallel(data []byte, dst *net.UDPAddr) []string {
+	groups := map[int][][]byte{}
+	var order []int
+	for len(data) >= 3 {
+		snd := int(data[0]) % nSocks
+		n := int(binary.BigEndian.Uint16(data[1:]))
+		data = data[3:]
+		if n > len(data) {
+			n = len(data)
+		}
+		if _, ok := groups[snd]; !ok {
+			order = append(order, snd)
+		}
+		groups[snd] = append(groups[snd], data[:n])
+		data = data[n:]
+	}
+	for idx := 0; ; idx++ {
+		any := false
+		for _, snd := range order {
+			if idx < len(groups[snd]) {
+				any = true
+				d.socks[snd].WriteToUDP(groups[snd][idx], dst)
+			}
+		}
+		if !any {
+			break
+		}
+	}
+	sentinels := map[int][]byte{}
+	seqs := map[int]uint32{}
+	for _, snd := range order {
+		sentinels[snd] = d.nextSentinel()
+		seqs[snd] = d.seq
+		d.socks[snd].WriteToUDP(sentinels[snd], dst)
+	}
+	isSent := func(b []byte, seq uint32) bool {
+		return len(b) >= ntp.PacketLen && binary.BigEndian.Uint32(b[24:]) == sentinelSecs && binary.BigEndian.Uint32(b[28:]) == seq
+	}
+	reps := map[int][]obs{}
+	sreps := map[int][]obs{}
+	buf := make([]byte, 65536)
+	deadline := time.Now().Add(readTimeout)
+	for _, snd := range order {
+		c := d.socks[snd]
+		for {
+			c.SetReadDeadline(deadline)
+			n, _, err := c.ReadFromUDP(buf)
+			if err != nil {
+				d.lost = true
+				break
+			}
+			b := append([]byte(nil), buf[:n]...)
+			if isSent(b, seqs[snd]) {
+				sreps[snd] = append(sreps[snd], obs{snd, b})
+				break
+			}
+			reps[snd] = append(reps[snd], obs{snd, b})
+		}
+	}
+	// anything left anywhere: late, duplicated or misdirected datagrams; charge them to the
+	// socket they arrived at when it took part, else to the first one
+	for i, s := range d.socks {
+		for _, b := range drain(s) {
+			g := order[0]
+			if _, ok := groups[i]; ok {
+				g = i
+			}
+			reps[g] = append(reps[g], obs{i, b})
+		}
+	}
+	var outs []string
+	for _, snd := range order {
+		var ps []string
+		for _, p := range groups[snd] {
+			ps = append(ps, lib.L(lib.B(p), lib.Bool(d.ntsValid(p))))
+		}
+		outs = append(outs, lib.L(lib.I(int64(snd)), lib.L(ps...), obsList(reps[snd]), lib.B(sentinels[snd]), obsList(sreps[snd])))
+	}
+	return outs
+}
+
 func (d *drv) runIP(tags string, steps []step, r *lib.Rng) {
 	args := stepsString(steps)
 	emitCur("ip", tags, args)
@@ -313,6 +431,33 @@ func (d *drv) runIP(tags string, steps []step, r *lib.Rng) {
 	firstReply := make([][]byte, len(steps))
 	var outs []string
 	for i, s := range steps {
+		if s.k == kParallel {
+			outs = append(outs, d.runParallel(s.data, dst)...)
+			if d.lost {
+				break
+			}
+			continue
+		}
+		if s.k == kBurst {
+			items := d.burstItems(s.data, r)
+			if len(items) == 0 {
+				continue
+			}
+			var ps []string
+			for _, p := range items {
+				ps = append(ps, lib.L(lib.B(p), lib.Bool(d.ntsValid(p))))
+			}
+			sentinel := d.nextSentinel()
+			reps, sreps := d.exchangeBurst(s.sender, dst, items, sentinel)
+			if len(reps) > 0 {
+				firstReply[i] = reps[0].data
+			}
+			outs = append(outs, lib.L(lib.I(int64(s.sender)), lib.L(ps...), obsList(reps), lib.B(sentinel), obsList(sreps)))
+			if d.lost {
+				break
+			}
+			continue
+		}
 		payload := d.payloadOf(s, firstReply, r)
 		ntsok := d.ntsValid(payload)
 		sentinel := d.nextSentinel()
